@@ -42,7 +42,7 @@ def test_names(thorough):
 def cases(draw, thorough=False, procs=False):
     spec = draw(gen.worlds(max_layers=3 if procs else 2, min_layers=2 if procs else 0, hooks='layer', kinds=gen.ALL_KINDS, max_modules=2, depth=1,
                            max_tests=4, weights_good=40, layer_decl=50, explicit_unit=True, max_children=3,
-                           excs=gen.ALL_EXCS))
+                           excs=gen.ALL_EXCS, inst_attrs=procs))
     hostile = draw(st.sampled_from(['all', 'all', 'names-only', 'none']))
     used = set()
     for node, t in gen.iter_tests(spec):
@@ -152,6 +152,12 @@ def oracle(spec, opts, run, folder):
         return viol
     reports = read_reports(folder)
     repeat = opts.get('repeat', 1)
+    # classes whose tests ran in more than one process (instance-level layer declarations + layer subprocesses)
+    pids_of_class = {}
+    for e in run.trace:
+        if e['ev'] == 'T' and e['ph'] == 'run':
+            pids_of_class.setdefault(e['id'].rsplit('.', 1)[0], set()).add(e['pid'])
+    split_classes = {c for c, pids in pids_of_class.items() if len(pids) > 1}
     cases_seen = Counter()      # (classname, name, kind) kind in pass/failure/error
     for fname, (root, err) in reports.items():
         if root is None:
@@ -230,6 +236,12 @@ def oracle(spec, opts, run, folder):
                 del remaining[key]
         if got != n:
             what = 'passing test' if kind == 'pass' else 'reported %s' % kind
+            if cls in split_classes and got < n:
+                # recorded finding: every process writes <class>.xml on its own, the later one replaces the earlier one
+                viol.append(('C17/class-split-over-processes/report-overwritten',
+                             '%s %s.%s is missing from the report: the tests of class %s ran in %d processes, each of which '
+                             'wrote %s.xml' % (what, cls, name, cls, len(pids_of_class[cls]), cls)))
+                continue
             viol.append(('C17/%s-missing-or-misattributed' % ('pass' if kind == 'pass' else 'bad'),
                          '%s %s.%s: expected %d testcase element(s) with classname=%r and that name, found %d; '
                          'unmatched testcases: %s' % (what, cls, name, n, cls, got,
